@@ -82,6 +82,10 @@ class Ctx5:
                     c -= 1 << bits
                 return lf_const(c)
             return r
+        if o in ("mul", "shl") and i["ops"][1][0] == "c":
+            x = self.lf(i["ops"][0], env, depth + 1)
+            k = int(i["ops"][1][1]) if o == "mul" else 1 << int(i["ops"][1][1])
+            return lf_scale(x, k) if x is not None and k < (1 << 16) else (0, ((("i", i["id"]), 1),))
         if o == "load":
             t = self.fa.termcache.get(i["id"])
             if t is not None and t[0] == "ld":
